@@ -10,3 +10,338 @@
 //! Nothing in this module is compiled without the `verif` feature.
 
 pub use crate::composer::verif::{GateRow, Snapshot, set_witness_script};
+
+std::thread_local! {
+    static PROVER_FORCED: core::cell::Cell<bool> =
+        const { core::cell::Cell::new(false) };
+}
+
+/// Force the prover on this thread past its unsatisfied-circuit check: the
+/// quotient is truncated to the honest degree bound instead of being rejected.
+pub fn set_prover_forced(on: bool) {
+    PROVER_FORCED.with(|f| f.set(on));
+}
+
+pub(crate) fn prover_forced() -> bool {
+    PROVER_FORCED.with(|f| f.get())
+}
+
+/// Thin public wrappers over the crate-private FFT, polynomial and KZG
+/// kernels, so that an external harness can compare them with their
+/// mathematical definitions.
+pub mod kernels {
+    use alloc::vec::Vec;
+
+    use dusk_bls12_381::{BlsScalar, G1Affine};
+    use dusk_bytes::Serializable;
+    use merlin::Transcript;
+
+    use crate::commitment_scheme::{
+        AggregateProof, CommitKey, Commitment, OpeningKey, PublicParameters,
+    };
+    use crate::error::Error;
+    use crate::fft::{EvaluationDomain, Polynomial};
+
+    /// `(size, group generator)` of the evaluation domain for `num_coeffs`.
+    pub fn domain(num_coeffs: usize) -> Result<(usize, BlsScalar), Error> {
+        let d = EvaluationDomain::new(num_coeffs)?;
+        Ok((d.size(), d.group_gen))
+    }
+
+    /// `EvaluationDomain::new(num_coeffs).fft(v)`
+    pub fn fft(num_coeffs: usize, v: &[BlsScalar]) -> Result<Vec<BlsScalar>, Error> {
+        Ok(EvaluationDomain::new(num_coeffs)?.fft(v))
+    }
+
+    /// `EvaluationDomain::new(num_coeffs).ifft(v)`
+    pub fn ifft(num_coeffs: usize, v: &[BlsScalar]) -> Result<Vec<BlsScalar>, Error> {
+        Ok(EvaluationDomain::new(num_coeffs)?.ifft(v))
+    }
+
+    /// `EvaluationDomain::new(num_coeffs).coset_fft(v)`
+    pub fn coset_fft(
+        num_coeffs: usize,
+        v: &[BlsScalar],
+    ) -> Result<Vec<BlsScalar>, Error> {
+        Ok(EvaluationDomain::new(num_coeffs)?.coset_fft(v))
+    }
+
+    /// `EvaluationDomain::new(num_coeffs).coset_ifft(v)`
+    pub fn coset_ifft(
+        num_coeffs: usize,
+        v: &[BlsScalar],
+    ) -> Result<Vec<BlsScalar>, Error> {
+        Ok(EvaluationDomain::new(num_coeffs)?.coset_ifft(v))
+    }
+
+    /// All Lagrange basis polynomials of the domain evaluated at `tau`.
+    pub fn lagrange_all(
+        num_coeffs: usize,
+        tau: BlsScalar,
+    ) -> Result<Vec<BlsScalar>, Error> {
+        Ok(EvaluationDomain::new(num_coeffs)?
+            .evaluate_all_lagrange_coefficients(tau))
+    }
+
+    /// Vanishing polynomial of the domain at `tau`.
+    pub fn vanishing_eval(
+        num_coeffs: usize,
+        tau: &BlsScalar,
+    ) -> Result<BlsScalar, Error> {
+        Ok(EvaluationDomain::new(num_coeffs)?
+            .evaluate_vanishing_polynomial(tau))
+    }
+
+    /// `X^poly_degree - 1` over the coset of the domain.
+    pub fn vanishing_over_coset(
+        num_coeffs: usize,
+        poly_degree: u64,
+    ) -> Result<Vec<BlsScalar>, Error> {
+        Ok(EvaluationDomain::new(num_coeffs)?
+            .compute_vanishing_poly_over_coset(poly_degree)
+            .evals)
+    }
+
+    /// Elements of the domain in order.
+    pub fn elements(num_coeffs: usize) -> Result<Vec<BlsScalar>, Error> {
+        Ok(EvaluationDomain::new(num_coeffs)?.elements().collect())
+    }
+
+    /// Barycentric evaluation of the polynomial with the given evaluations.
+    pub fn barycentric(
+        num_coeffs: usize,
+        evaluations: &[BlsScalar],
+        point: &BlsScalar,
+    ) -> Result<BlsScalar, Error> {
+        let d = EvaluationDomain::new(num_coeffs)?;
+        Ok(crate::proof_system::proof::alloc::compute_barycentric_eval(
+            evaluations,
+            point,
+            &d,
+        ))
+    }
+
+    /// The verifier's fused `(L_1(point), PI(point))` evaluation.
+    pub fn lagrange_and_public_inputs(
+        num_coeffs: usize,
+        public_input_roots: &[BlsScalar],
+        evaluations: &[BlsScalar],
+        point: &BlsScalar,
+    ) -> Result<(BlsScalar, BlsScalar), Error> {
+        let d = EvaluationDomain::new(num_coeffs)?;
+        let z_h = d.evaluate_vanishing_polynomial(point);
+        crate::proof_system::proof::alloc::verif_lagrange_and_barycentric(
+            public_input_roots,
+            evaluations,
+            point,
+            &z_h,
+            &d,
+        )
+    }
+
+    fn poly(v: &[BlsScalar]) -> Polynomial {
+        Polynomial::from_coefficients_vec(v.to_vec())
+    }
+
+    /// `a + b`
+    pub fn poly_add(a: &[BlsScalar], b: &[BlsScalar]) -> Vec<BlsScalar> {
+        (&poly(a) + &poly(b)).to_vec()
+    }
+
+    /// `a += b`
+    pub fn poly_add_assign(a: &[BlsScalar], b: &[BlsScalar]) -> Vec<BlsScalar> {
+        let mut p = poly(a);
+        p += &poly(b);
+        p.to_vec()
+    }
+
+    /// `a += s * b`
+    pub fn poly_add_assign_scaled(
+        a: &[BlsScalar],
+        s: BlsScalar,
+        b: &[BlsScalar],
+    ) -> Vec<BlsScalar> {
+        let mut p = poly(a);
+        p += (s, &poly(b));
+        p.to_vec()
+    }
+
+    /// `a - b`
+    pub fn poly_sub(a: &[BlsScalar], b: &[BlsScalar]) -> Vec<BlsScalar> {
+        (&poly(a) - &poly(b)).to_vec()
+    }
+
+    /// `a -= b`
+    pub fn poly_sub_assign(a: &[BlsScalar], b: &[BlsScalar]) -> Vec<BlsScalar> {
+        let mut p = poly(a);
+        p -= &poly(b);
+        p.to_vec()
+    }
+
+    /// `-a`
+    pub fn poly_neg(a: &[BlsScalar]) -> Vec<BlsScalar> {
+        (-poly(a)).to_vec()
+    }
+
+    /// `a * b`
+    pub fn poly_mul(a: &[BlsScalar], b: &[BlsScalar]) -> Vec<BlsScalar> {
+        (&poly(a) * &poly(b)).to_vec()
+    }
+
+    /// `a * s`
+    pub fn poly_scale(a: &[BlsScalar], s: &BlsScalar) -> Vec<BlsScalar> {
+        (&poly(a) * s).to_vec()
+    }
+
+    /// `a + s`
+    pub fn poly_add_scalar(a: &[BlsScalar], s: &BlsScalar) -> Vec<BlsScalar> {
+        (&poly(a) + s).to_vec()
+    }
+
+    /// `a - s`
+    pub fn poly_sub_scalar(a: &[BlsScalar], s: &BlsScalar) -> Vec<BlsScalar> {
+        (&poly(a) - s).to_vec()
+    }
+
+    /// `a(x)`
+    pub fn poly_eval(a: &[BlsScalar], x: &BlsScalar) -> BlsScalar {
+        poly(a).evaluate(x)
+    }
+
+    /// Degree as the crate reports it.
+    pub fn poly_degree(a: &[BlsScalar]) -> usize {
+        poly(a).degree()
+    }
+
+    /// Quotient of the division by `X - z`.
+    pub fn poly_ruffini(a: &[BlsScalar], z: BlsScalar) -> Vec<BlsScalar> {
+        poly(a).ruffini(z).to_vec()
+    }
+
+    /// In-place batch inversion.
+    pub fn batch_inversion(v: &mut [BlsScalar]) {
+        crate::util::batch_inversion(v)
+    }
+
+    /// `x^0 ..= x^max_degree`
+    pub fn powers_of(x: &BlsScalar, max_degree: usize) -> Vec<BlsScalar> {
+        crate::util::powers_of(x, max_degree)
+    }
+
+    /// A trimmed commit key together with the opening key.
+    pub struct Keys {
+        commit: CommitKey,
+        opening: OpeningKey,
+    }
+
+    /// `pp.trim(n)`
+    pub fn trim(pp: &PublicParameters, n: usize) -> Result<Keys, Error> {
+        let (commit, opening) = pp.trim(n)?;
+        Ok(Keys { commit, opening })
+    }
+
+    impl Keys {
+        /// Points of the commit key.
+        pub fn powers(&self) -> Vec<G1Affine> {
+            self.commit.powers_of_g.clone()
+        }
+
+        /// Commitment to the polynomial with the given coefficients.
+        pub fn commit(&self, coeffs: &[BlsScalar]) -> Result<G1Affine, Error> {
+            Ok(self.commit.commit(&poly(coeffs))?.0)
+        }
+
+        /// Opening-key bytes.
+        pub fn opening_bytes(&self) -> [u8; OpeningKey::SIZE] {
+            self.opening.to_bytes()
+        }
+
+        /// `OpeningKey::batch_check` over `(point, commitment, evaluation,
+        /// witness)` tuples with a fresh transcript under `label`.
+        pub fn batch_check(
+            &self,
+            label: &'static [u8],
+            items: &[(BlsScalar, G1Affine, BlsScalar, G1Affine)],
+            points_override: Option<&[BlsScalar]>,
+        ) -> Result<(), Error> {
+            let proofs: Vec<_> = items
+                .iter()
+                .map(|(_, c, e, w)| crate::commitment_scheme::kzg10_proof(
+                    Commitment(*w),
+                    *e,
+                    Commitment(*c),
+                ))
+                .collect();
+            let points: Vec<_> = match points_override {
+                Some(p) => p.to_vec(),
+                None => items.iter().map(|(p, ..)| *p).collect(),
+            };
+            let mut t = Transcript::new(label);
+            self.opening.batch_check(&points, &proofs, &mut t)
+        }
+    }
+
+    /// `CommitKey::compute_aggregate_witness`
+    pub fn aggregate_witness(
+        polys: &[&[BlsScalar]],
+        point: &BlsScalar,
+        v: &BlsScalar,
+    ) -> Vec<BlsScalar> {
+        let ps: Vec<Polynomial> = polys.iter().map(|p| poly(p)).collect();
+        let refs: Vec<&Polynomial> = ps.iter().collect();
+        CommitKey::compute_aggregate_witness(&refs, point, v).to_vec()
+    }
+
+    /// `AggregateProof::flatten`: returns `(commitment, evaluation)` of the
+    /// flattened proof.
+    pub fn flatten(
+        witness: G1Affine,
+        parts: &[(BlsScalar, G1Affine)],
+        v: &BlsScalar,
+    ) -> (G1Affine, BlsScalar) {
+        let mut agg = AggregateProof::with_witness(Commitment(witness));
+        for (e, c) in parts {
+            agg.add_part((*e, Commitment(*c)));
+        }
+        let p = agg.flatten(v);
+        (p.commitment_to_polynomial.0, p.evaluated_point)
+    }
+}
+
+/// Scheduling-point hook for code regions that take a process-wide lock.
+pub mod sched {
+    use std::sync::{Arc, RwLock};
+
+    /// Callback invoked with `(region, false)` before the region's lock is
+    /// requested and with `(region, true)` after it was released.
+    pub type Callback = Arc<dyn Fn(&'static str, bool) + Send + Sync>;
+
+    static CALLBACK: RwLock<Option<Callback>> = RwLock::new(None);
+
+    /// Install (or clear) the process-wide region callback.
+    pub fn set_callback(cb: Option<Callback>) {
+        *CALLBACK.write().unwrap_or_else(|e| e.into_inner()) = cb;
+    }
+
+    /// Guard object marking a lock region.
+    pub struct Region(&'static str);
+
+    /// Enter a lock region; the returned guard reports the exit on drop.
+    pub fn enter(name: &'static str) -> Region {
+        let cb = CALLBACK.read().unwrap_or_else(|e| e.into_inner()).clone();
+        if let Some(cb) = cb {
+            cb(name, false);
+        }
+        Region(name)
+    }
+
+    impl Drop for Region {
+        fn drop(&mut self) {
+            let cb =
+                CALLBACK.read().unwrap_or_else(|e| e.into_inner()).clone();
+            if let Some(cb) = cb {
+                cb(self.0, true);
+            }
+        }
+    }
+}
